@@ -36,6 +36,8 @@ def TP.empty : TP := ⟨none, none, 1⟩
 structure Active where
   tp : TP
   spanParent : Option Id
+  /-- the `Tracestate` travelling with the traceparent (an opaque text; `0` = the empty tracestate) -/
+  state : Nat := 0
   deriving Repr, DecidableEq
 
 /-- `SpanCtxt` = (trace_id, span_parent, span_id) -/
@@ -58,11 +60,16 @@ def current : Option Active → TP
   | some a => a.tp
   | none => TP.empty
 
+/-- `Tracestate::current()` -/
+def currentState : Option Active → Nat
+  | some a => a.state
+  | none => 0
+
 inductive Obs where
   | sampler (traceId : Option Id) (spanId : Id) (decision : Bool)
   | spanOpen (enabled : Bool) (ids : Ids)              -- the child's own SpanCtxt and the filter verdict
   | spanDone (ids : Ids)                               -- a span event was emitted; ambient ids on it
-  | event (cur : TP) (ids : Ids) (passTraceparent passInSampled : Bool)
+  | event (cur : TP) (state : Nat) (ids : Ids) (passTraceparent passInSampled : Bool)
   deriving Repr, DecidableEq
 
 structure Env where
@@ -107,14 +114,16 @@ def incoming (c : Cfg) (useSampler : Bool) (st : Option Active) (traceId : Optio
     if (active.bind (·.tp.spanId)) == some sid then (none, calls, [])
     else match active with
       | some a =>
-        (some ⟨⟨a.tp.traceId, some sid, applyMask mask a.tp.flags⟩, a.tp.spanId⟩, calls, [])
+        -- a child span inherits the tracestate of its parent
+        (some ⟨⟨a.tp.traceId, some sid, applyMask mask a.tp.flags⟩, a.tp.spanId, a.state⟩, calls, [])
       | none =>
         if useSampler then
           if maskIsSampled mask then
             let d := c.decide calls
-            (some ⟨⟨traceId, some sid, if d then applyMask mask 1 else 0⟩, none⟩, calls + 1, [.sampler traceId sid d])
-          else (some ⟨⟨traceId, some sid, 0⟩, none⟩, calls, [])
-        else (some ⟨⟨traceId, some sid, applyMask mask 1⟩, none⟩, calls, [])
+            -- a root span starts with the empty tracestate (whatever an invalid active traceparent carried)
+            (some ⟨⟨traceId, some sid, if d then applyMask mask 1 else 0⟩, none, 0⟩, calls + 1, [.sampler traceId sid d])
+          else (some ⟨⟨traceId, some sid, 0⟩, none, 0⟩, calls, [])
+        else (some ⟨⟨traceId, some sid, applyMask mask 1⟩, none, 0⟩, calls, [])
 
 inductive Prog where
   | event                                      -- observe `Traceparent::current`, ambient ids, both filters
@@ -123,6 +132,8 @@ inductive Prog where
   | spanAsync (children : List Prog)           -- … whose body is a future polled once per child: the frame is
                                                --   entered and exited around EVERY poll (`FrameFuture::poll`)
   | push (tp : TP) (children : List Prog)      -- `Traceparent::push(tp)` frame entered around the children
+  | pushState (ts : Nat) (children : List Prog)         -- `Tracestate::push(ts)` frame entered around the children
+  | pushBoth (tp : TP) (ts : Nat) (children : List Prog) -- `emit_traceparent::push(tp, ts)`
   | carry (children : List Prog)               -- `Frame::current(ctxt)` captured here, entered on a fresh thread
   deriving Repr
 
@@ -153,7 +164,7 @@ def observeEvent (c : Cfg) (e : Env) : Env :=
     | some a => a.tp.sampled
     | none => c.outside
   -- a non-span event always passes TraceparentFilter
-  { e with out := .event (current e.st) (ambientIds e.st) true passIn :: e.out }
+  { e with out := .event (current e.st) (currentState e.st) (ambientIds e.st) true passIn :: e.out }
 
 /-- `enter`: an active frame (one with a slot) swaps its slot with the thread's active traceparent. -/
 def enterSt (slot st : Option Active) : Option Active :=
@@ -175,7 +186,20 @@ def completeSpan (enabled : Bool) (e : Env) : Env :=
 def pushedActive (st : Option Active) (tp : TP) : Active :=
   ⟨tp, match st with
     | some a => if a.tp.traceId.isSome && a.tp.traceId == tp.traceId then a.tp.spanId else none
-    | none => none⟩
+    | none => none,
+   -- the tracestate in force is kept
+   currentState st⟩
+
+/-- `Tracestate::push`: the active traceparent and span parent are kept, only the tracestate changes; with
+    nothing active the frame holds `Traceparent::empty()` (no ids, flags SAMPLED). -/
+def stateActive (st : Option Active) (ts : Nat) : Active :=
+  match st with
+  | some a => { a with state := ts }
+  | none => ⟨TP.empty, none, ts⟩
+
+/-- `emit_traceparent::push(traceparent, tracestate)`: both at once (its own copy of the span-parent rule). -/
+def bothActive (st : Option Active) (tp : TP) (ts : Nat) : Active :=
+  { pushedActive st tp with state := ts }
 
 /-- A `TraceparentCtxtFrame`: `active` is fixed at creation (`slot.is_some()`); `enter` and `exit` both swap the
     slot with the thread's active traceparent when the frame is active. -/
@@ -214,6 +238,12 @@ def run (c : Cfg) : Prog → Env → Env
     { e3 with st := (i.1.swap e3.st).2 }
   | .push tp cs, e =>
     let e2 := runList c cs { e with st := some (pushedActive e.st tp) }
+    { e2 with st := e.st }
+  | .pushState ts cs, e =>
+    let e2 := runList c cs { e with st := some (stateActive e.st ts) }
+    { e2 with st := e.st }
+  | .pushBoth tp ts cs, e =>
+    let e2 := runList c cs { e with st := some (bothActive e.st tp ts) }
     { e2 with st := e.st }
   | .carry cs, e =>
     -- Frame::current(ctxt) = open_push(Empty): no span id in the props; (fixed tree) the frame carries the
